@@ -98,7 +98,11 @@ theorem C10_schema_mapping (env : Env) (rec : Rec) (ctx : Ctx) (schema doc : Val
     (h : hSchema env rec ctx schema doc f c (.dict sub) upd = .ok o) :
     o.errs = if cerrs.isEmpty then [] else
       [{ code := Code.MAPPING_SCHEMA, rule := some "schema", info := [], kids := cerrs }] := by
-  simp only [hSchema, hc, Bool.false_eq_true, if_false, bind, Except.bind, hr, hs, pure, Except.pure, hrec] at h
+  have hcond : rulesSetName env c = false := by
+    cases c with
+    | str n => have hn : env.schemas n = some cschema := hs; simp [rulesSetName, hn]
+    | _ => rfl
+  simp only [hSchema, hc, hcond, Bool.false_eq_true, if_false, bind, Except.bind, hr, hs, pure, Except.pure, hrec] at h
   split at h <;> (simp only [Except.ok.injEq] at h; subst h; simp [*])
 
 /-- **sequence `schema`**: every item is validated against the rule set as a
